@@ -157,6 +157,25 @@ def run(res, args):
                 sts = {hexout(impl[i]) is not None for i, (jj, t) in enumerate(owner) if jj == j and t[1] == kw and t[2] == st}
                 if len(sts) > 1:
                     report('the document is accepted under some version/anonymity settings and refused under others', xs[j][:300], exc)
+            # ... and a refusal that only the disabled string table causes needs a reason in the document: a name
+            # that is in no table of the language (only a literal can carry it, and a literal needs the table)
+            for kw in (0, 1):
+                acc = {st: any(hexout(impl[i]) is not None for i, (jj, t) in enumerate(owner) if jj == j and t[1] == kw and t[2] == st) for st in (0, 1)}
+                ran = {st: any(True for i, (jj, t) in enumerate(owner) if jj == j and t[1] == kw and t[2] == st) for st in (0, 1)}
+                if ran[0] and ran[1] and acc[1] and not acc[0]:
+                    stats['strtbl_only_refusals'] = stats.get('strtbl_only_refusals', 0) + 1
+                    T = d['tables']
+                    tagn = {bytes.fromhex(r[0]) for r in T[str(lang['tags'])]['rows']} if lang['tags'] is not None else set()
+                    attn = {bytes.fromhex(r[0]) for r in T[str(lang['attrs'])]['rows']} if lang['attrs'] is not None else None
+                    need = False
+                    for e in docmp.doc_of_expat(src_runs[j])[2]:
+                        if e[0] == 'S':
+                            if docmp.local(e[1]) not in tagn:
+                                need = True
+                            if attn is not None and any(docmp.local(a) not in attn and not a.startswith(b'xmlns') for a, _ in e[2]):
+                                need = True
+                    if not need:
+                        report('the document is refused only when the string table is disabled although every name is in the tables of its language', xs[j][:400], exc)
             for keep in (0, 1):
                 grp = [(t, w, p) for t, w, p in items if t[1] == keep]
                 if not grp:
